@@ -183,7 +183,8 @@ func (t *sseClientTransport) start(ctx context.Context) error {
 	if resp.StatusCode != http.StatusOK {
 		body, _ := io.ReadAll(resp.Body)
 		resp.Body.Close()
-		return fmt.Errorf("unexpected status code: %d, body: %s", resp.StatusCode, string(body))
+		return &retry.StatusError{Code: resp.StatusCode,
+			Err: fmt.Errorf("unexpected status code: %d, body: %s", resp.StatusCode, string(body))}
 	}
 
 	// Check content type.
@@ -627,7 +628,8 @@ func (t *sseClientTransport) sendRequestInternal(ctx context.Context, req *JSONR
 	// Check response status.
 	if resp.StatusCode < 200 || resp.StatusCode >= 300 {
 		bodyBytes, _ := io.ReadAll(resp.Body)
-		return nil, fmt.Errorf("%w: status code %d, body: %s", ErrHTTPRequestFailed, resp.StatusCode, string(bodyBytes))
+		return nil, &retry.StatusError{Code: resp.StatusCode,
+			Err: fmt.Errorf("%w: status code %d, body: %s", ErrHTTPRequestFailed, resp.StatusCode, string(bodyBytes))}
 	}
 
 	// In the SSE transport, the response should come via the SSE stream.
